@@ -1,7 +1,7 @@
 (* Props/C01.v — compile and evaluate are total: the model has no path to the panic outcome. *)
 From Coq Require Import ZArith List Bool.
-From Rscel Require Import Base.Prims Model.Value Model.Funcs Model.Interp Model.Lexer Model.Ast Model.Parser.
-From Rscel Require Import Proofs.Total.
+From Rscel Require Import Base.Prims Model.Value Model.Funcs Model.Interp Model.Lexer Model.Ast Model.Parser Model.Compile.
+From Rscel Require Import Proofs.Total Proofs.ParseTp Proofs.CompileTotal.
 Import ListNotations.
 Open Scope Z_scope.
 
@@ -36,3 +36,19 @@ Theorem C01_prefix_run_guard : forall n k cnt t, 256 <= cnt ->
   p_oplist (S n) k cnt t = PErr (tz_loc t).
 Proof. exact prefix_run_guard. Qed.
 Print Assumptions C01_prefix_run_guard.
+
+(** * The compiler has no path to the panic outcome either, for any source text: labels always resolve
+    (C10), compile-time evaluation never panics (above), and every tree the parser returns carries, in
+    each of its type patterns, the name of a built-in type - the one state Compile.c_pattern marks
+    unreachable is unreachable. *)
+Theorem C01_parser_type_patterns : forall fuel depth t e t', p_expr_at fuel depth t = POk e t' -> tp fuel e.
+Proof. exact parser_type_patterns. Qed.
+Print Assumptions C01_parser_type_patterns.
+
+Theorem C01_compiler_never_panics : forall fuel src, compile_source fuel src <> CPanic.
+Proof. exact compile_source_never_panics. Qed.
+Print Assumptions C01_compiler_never_panics.
+
+Theorem C01_checked_compiler_never_panics : forall fuel src, compile_checked fuel src <> CPanic.
+Proof. exact compile_checked_never_panics. Qed.
+Print Assumptions C01_checked_compiler_never_panics.
